@@ -68,16 +68,19 @@ class Routing:
         from frappy.logging import RemoteLogHandler
         self.inj = lineinject.LineInjector(RemoteLogHandler.set_conn_level, RemoteLogHandler.handle, name='c20-inject', instructions=True)
 
-    def make_node(self, nmod, hidden=()):
+    NAMES = [['mod0', 'mod1', 'mod2'], ['T', 't', 'mod2'], ['heater', 'Heater', 'HEATER'], ['mod0', 'mod1', 'mod2']]
+
+    def make_node(self, nmod, hidden=(), names=None):
+        names = names or self.NAMES[0]
         self.k += 1
         root = self.mlzlog.MLZLogger(f'c20root{self.k}')
         root.setLevel(10)
         nodelog = root.getChild('n')
         self.init_remote_logging(nodelog)
-        cfg = {f'mod{i}': {'cls': self.Readable, 'description': 'x'} for i in range(nmod)}
+        cfg = {names[i]: {'cls': self.Readable, 'description': 'x'} for i in range(nmod)}
         for i in range(nmod):
             if hidden and hidden[i % len(hidden)]:
-                cfg[f'mod{i}']['export'] = False      # a hidden module (io, helper): remote logging works for it like for any other
+                cfg[names[i]]['export'] = False      # a hidden module (io, helper): remote logging works for it like for any other
         node = self.nodes.Node(cfg, log=nodelog).build()
         return node
 
@@ -85,9 +88,10 @@ class Routing:
         r = self.r
         nmod = rng.choice([1, 2, 3])
         nconn = rng.choice([1, 2, 3])
-        node = self.make_node(nmod, [rng.random() < 0.3 for _ in range(nmod)])
+        names = rng.choice(self.NAMES)          # also module names that differ in the case of letters only
+        node = self.make_node(nmod, [rng.random() < 0.3 for _ in range(nmod)], names)
         disp = node.dispatcher
-        mods = [f'mod{i}' for i in range(nmod)]
+        mods = names[:nmod]
         conns = []
         for i in range(nconn):
             c = self.nodes.Conn(f'c{i}')
